@@ -14,7 +14,8 @@
     External functions are Section variables:
       [deser]   keypair.DeserializePublicKey
       [sdeser]  ontology-crypto/signature.Deserialize  (None = error)
-      [sverify] ontology-crypto/signature.Verify       (true / false / run-time panic)
+      [sverify] ontology-crypto/signature.Verify       (true / false / run-time panic; core/signature
+                calls it only through its recovering wrapper, [wverify])
       [H]       RIPEMD160 . SHA256 (common.AddressFromVmCode), [Keth] Keccak256(.)[12:].
     The abstract signatures of DESIGN section 2 ([asig], [abs_verify]) are one instance, defined at
     the end of this file; it is the instance the correspondence cases run. *)
@@ -77,30 +78,32 @@ Definition get_sig (r : rawsig) : sigset + perr :=
     end
   end.
 
+(** core/signature.verify (the wrapper added by the repair c4422b91): the crypto library's Verify
+    under a deferred recover; a panic of the library counts as "does not verify".  Its shape is
+    checked by the translator on every run (Gen/SigGuards.v, verify_wrapper_recovers). *)
+Definition wverify (k : pubkey) (h : bytes) (s : sigT) : bool :=
+  match sverify k h s with VTrue => true | VFalse => false | VPanic => false end.
+
 (** core/signature.Verify(pubKey, data, signature) *)
-Inductive sres := SOk | SErrData | SErrVerify | SPanic.
+Inductive sres := SOk | SErrData | SErrVerify.
 
 Definition verify_single (k : pubkey) (h : bytes) (sb : bytes) : sres :=
   match sdeser sb with
   | None => SErrData
-  | Some s => match sverify k h s with VTrue => SOk | VFalse => SErrVerify | VPanic => SPanic end
+  | Some s => if wverify k h s then SOk else SErrVerify
   end.
 
 (** The inner loop of VerifyMultiSignature:
-      for j := 0; j < n; j++ { if mask[j] {continue}; if s.Verify(keys[j], data, sig) { mask[j] = true; valid = true; break } } *)
-Inductive slot := SFound (mask' : list bool) | SNone | SCrash.
+      for j := 0; j < n; j++ { if mask[j] {continue}; if verify(keys[j], data, sig) { mask[j] = true; valid = true; break } } *)
+Inductive slot := SFound (mask' : list bool) | SNone.
 
 Fixpoint find_slot (h : bytes) (s : sigT) (keys : list pubkey) (mask : list bool) : slot :=
   match keys, mask with
   | k :: ks, b :: bs =>
     if b then
-      match find_slot h s ks bs with SFound m' => SFound (b :: m') | SNone => SNone | SCrash => SCrash end
-    else
-      match sverify k h s with
-      | VTrue => SFound (true :: bs)
-      | VPanic => SCrash
-      | VFalse => match find_slot h s ks bs with SFound m' => SFound (false :: m') | SNone => SNone | SCrash => SCrash end
-      end
+      match find_slot h s ks bs with SFound m' => SFound (b :: m') | SNone => SNone end
+    else if wverify k h s then SFound (true :: bs)
+    else match find_slot h s ks bs with SFound m' => SFound (false :: m') | SNone => SNone end
   | _, _ => SNone
   end.
 
@@ -122,7 +125,6 @@ Fixpoint multi_loop (h : bytes) (keys : list pubkey) (m : nat) (sigs : list byte
         match find_slot h s keys mask with
         | SFound mask' => multi_loop h keys m' rest mask'
         | SNone => MErr VEMulti
-        | SCrash => MCrash
         end
       end
     end
@@ -150,7 +152,6 @@ Definition check_sigset (h : bytes) (r : rawsig) : cres :=
       | k :: _, sb :: _ =>
         match verify_single k h sb with
         | SOk => match address_from_pubkey H Keth k with AOk a => COk a | _ => CCrash end
-        | SPanic => CCrash
         | _ => CErr VESingle
         end
       | _, _ => CCrash   (* sig.PubKeys[0] / sig.SigData[0] out of range: excluded by the guard *)
@@ -221,7 +222,8 @@ End Validator.
 
     A signature is the pair (signer, message) it was made over; anything else that deserializes is
     [SigJunk].  Two classes of run-time panics of the crypto library's Verify are part of the
-    model (both are known findings of C16):
+    model of the LIBRARY (found by C16, repaired in core/signature by c4422b91: the validator now
+    treats them as "does not verify"; the witnesses are regression probes in corpus/C16):
     - [SigEthShort]: a signature of scheme KECCAK256WithECDSA whose value has fewer than
       ETH_RECOVERY_ID_OFFSET bytes; Verify slices sig[:64] for an Ethereum-style key and panics;
     - [weak] keys: an EC key given in uncompressed form is not checked to lie on its curve
